@@ -23,11 +23,11 @@ type X struct {
 	pos    int
 	skip   bool
 	// sharding: positions < shardDepth decide the shard
-	shardDepth       int
-	shard, nshards   int
-	shardDecided     bool
-	Labels           []string
-	recordLabels     bool
+	shardDepth     int
+	shard, nshards int
+	shardDecided   bool
+	Labels         []string
+	recordLabels   bool
 }
 
 type xAbort struct{}
